@@ -189,8 +189,9 @@ pub proof fn lemma_name_ws_progress(s: Seq<u8>, nlo: int, nhi: int, q: int, cfg:
 pub proof fn lemma_line_progress(s: Seq<u8>, p: int, first: bool, cfg: HCfg)
     requires 0 <= p,
     ensures spec_line(s, p, first, cfg) matches LineRes::Skip(n) ==> p < n <= s.len(),
-            spec_line(s, p, first, cfg) matches LineRes::End(n) ==> p < n <= s.len(),
-            spec_line(s, p, first, cfg) matches LineRes::Header(h, n) ==>
+            spec_line(s, p, first, cfg) matches LineRes::End(n) ==> p < n <= s.len()
+                && ((s[p] == 0x0a && n == p + 1) || (s[p] == 0x0d && s[p + 1] == 0x0a && n == p + 2)),
+            spec_line(s, p, first, cfg) matches LineRes::Header(h, n) ==> is_tchar(s[p]) &&
                 p == h.name_lo && h.name_lo < h.name_hi && h.name_hi < h.val_lo && h.val_lo <= h.val_hi && h.val_hi < n && n <= s.len(),
 {
     if p < s.len() {
